@@ -12,7 +12,7 @@ import (
 func init() {
 	register(&propInfo{
 		ID:          "C20",
-		Explanation: "Typestate, lockset and path analysis of the httpio reader side channel: (R20.1) the channel that signals 'stream consumed' is closed only inside sync.Once-guarded closures of one Once object, although Read and Close may be invoked any number of times; (R20.2) upload handler and parameter decoder each perform lookup-or-create of the hand-off channel inside one critical section of the same mutex, keyed by the parsed id, create only on the not-found branch, and meet on that channel with opposite directions, each inside a select that also watches its context; (R20.3) the encoder draws a fresh id on every invocation (inside the encoder closure), uploads the caller's reader to a URL derived from that id and returns that same id as the parameter; (R20.4) the upload handler reports success only after the consumed-signal was received, and no path falls off the end (implicit 200) without it. R20.1 also requires every use of the wrapped body outside the signalling Read/Close to raise the signal itself; (R20.7) the inner read stands behind a test of a wrapper field that every failing read sets, so end-of-file is reported again without touching the body that net/http closes once the signal is raised. (R20.8) a registered parameter encoder runs once per argument, before the first transport send; (R20.9) a counting limit in the reader path is given back on every path.",
+		Explanation: "Typestate, lockset and path analysis of the httpio reader side channel: (R20.1) the channel that signals 'stream consumed' is closed only inside sync.Once-guarded closures of one Once object, although Read and Close may be invoked any number of times; (R20.2) upload handler and parameter decoder each perform lookup-or-create of the hand-off channel inside one critical section of the same mutex, keyed by the parsed id, create only on the not-found branch, and meet on that channel with opposite directions, each inside a select that also watches its context; (R20.3) the encoder draws a fresh id on every invocation (inside the encoder closure), uploads the caller's reader to a URL derived from that id and returns that same id as the parameter; (R20.4) the upload handler reports success only after the consumed-signal was received, and no path falls off the end (implicit 200) without it. R20.1 also requires every use of the wrapped body outside the signalling Read/Close to raise the signal itself; (R20.7) the inner read stands behind a test of a wrapper field that every failing read sets, so end-of-file is reported again without touching the body that net/http closes once the signal is raised. (R20.8) a registered parameter encoder runs once per argument, before the first transport send; (R20.9) a counting limit in the reader path is given back on every path. (R20.10) the encoder does nothing with the caller's reader except hand it to the upload request.",
 		NotDecided:  "Byte-exactness of the stream (values through net/http), arrival-order schedules themselves (only the symmetric locked rendezvous that makes both orders work), and the upload handler carrying on after a malformed id (observation recorded in DESIGN.md).",
 		Assumptions: []string{"sync.Once.Do runs its argument at most once per Once object", "the wrapper type is the struct in httpio embedding io.ReadCloser with a chan struct{} field"},
 		Run:         runC20,
